@@ -194,6 +194,40 @@ theorem replayed_exception_is_the_raised_one (cfg : Cfg) (script : Nat → Beh) 
     rw [hk, hres] at hfr
     exact hfr
 
+/-- **A call whose caller is cancelled while the function is running.**  In every reachable state: under thunder
+protection (`protected=True`, the default) the call itself is shielded - the state afterwards (store and execution log)
+is exactly the state after the same call with a caller that stays, so every theorem above speaks about that execution
+like about any other (its result is stored iff accepted, served only while younger than its ttl, and the next call
+after that executes the function again); the cancelled caller has an answer only if it came from the store.  Without
+protection a call that is cut short as the function starts to work leaves the state exactly as it was (nothing is
+logged, nothing is stored), and it is cut short only if the store holds no live result for the key. -/
+theorem cancelled_caller (cfg : Cfg) (script : Nat → Beh) (ops : List Simple.Op) (k : Nat) :
+    let s := after cfg script ops
+    (step cfg script s (.lost k)).1 = (step cfg script s (.call k)).1 ∧
+    (∀ r, (step cfg script s (.call k)).2 = .got r true → (step cfg script s (.lost k)).2 = .got r true) ∧
+    (∀ r, (step cfg script s (.call k)).2 = .got r false → (step cfg script s (.lost k)).2 = .lost true) ∧
+    (step cfg script s (.cut k)).1 = s ∧
+    ((step cfg script s (.cut k)).2 = .lost false ↔ s.store.find k = none) ∧
+    (∀ r, (step cfg script s (.call k)).2 = .got r true → (step cfg script s (.cut k)).2 = .got r true) := by
+  intro s
+  refine ⟨rfl, ?_, ?_, step_cut_state cfg script s k, ?_, ?_⟩
+  · intro r h
+    show ((step cfg script s (.call k)).2).hide = _
+    rw [h]; rfl
+  · intro r h
+    show ((step cfg script s (.call k)).2).hide = _
+    rw [h]; rfl
+  · cases hf : s.store.find k with
+    | none => simp [step, hf]
+    | some e => simp [step, hf]
+  · intro r h
+    cases hf : s.store.find k with
+    | none => rw [step_call_miss cfg script s k hf] at h; simp at h
+    | some e =>
+      rw [step_call_hit cfg script s k e hf] at h
+      simp only [Simple.Out.got.injEq, and_true] at h
+      simp [step, hf, h]
+
 /-- two exception answers are the same exception only if class, payload and stamp all agree -/
 example : Res.exc 1 3 2 ≠ Res.exc 1 0 2 ∧ Res.dec (Res.enc (.exc 1 3 2)) = .exc 1 3 2 := by decide
 
@@ -228,6 +262,19 @@ example : (run ⟨.slower 1, fun _ _ => 8⟩ sampleScript St.init [.call 0, .cal
     [.got (.val 0 0) false, .got .none false] := by decide
 example : (run ⟨.slower 0, fun _ _ => 8⟩ sampleScript St.init [.call 0, .call 0]).2 =
     [.got (.val 0 0) false, .got (.val 0 0) true] := by decide
+
+/-- a caller cancelled under thunder protection: the execution completes and is stored; it is served within its ttl
+(8 ticks) and not after; a call cut short without protection does not count as an execution -/
+example : (run ⟨.all, fun _ _ => 8⟩ sampleScript St.init
+      [.cut 0, .lost 0, .call 0, .lost 0, .adv 8, .call 0, .cut 0]).2 =
+    [.lost false, .lost true, .got (.val 0 0) true, .got (.val 0 0) true, .unit, .got .none false, .got .none true] := by decide
+
+/-- `time_condition` together with a condition: both have to accept (a slow `None` is not stored under not-none; a fast
+payload is not stored either; a slow payload is) -/
+example : (run ⟨.slowerAnd 0 .notNone, fun _ _ => 8⟩ (fun n => if n = 1 then ⟨.none, 1⟩ else if n = 2 then ⟨.val, 0⟩ else ⟨.val, 1⟩)
+      St.init [.call 1, .call 1, .call 0, .call 0, .call 0, .call 0]).2 =
+    [.got (.val 0 0) false, .got (.val 0 0) true, .got .none false, .got (.val 2 0) false, .got (.val 3 0) false,
+     .got (.val 3 0) true] := by decide
 
 /-- the hypotheses of `rejected_never_stored` / `rejected_execution_stores_nothing` are satisfiable:
 after `[call 0, adv 8]` under not-none the next execution (number 1, `None`) is rejected -/
